@@ -9,7 +9,9 @@ from nvlib.check import Prop
 DIRS = ["u1", "u2", "bb", "root", "odd"]
 FILES = ["a", "b", "c"]
 NAMES = ["u1", "u2", "Backbone", "Root", "NONAME", "zed", "x9", ""]
-CF_SPECS = ["s:u1", "s:u2", "s:Backbone", "s:Root", "s:NONAME", "s:zed", "s:", "i:0", "i:7", "i:-1", "arr", "err", "none"]
+CF_SPECS = ["s:u1", "s:u2", "s:Backbone", "s:Root", "s:NONAME", "s:zed", "s:", "i:0", "i:7", "i:-1", "arr", "err", "none",
+            # re-entrancy: the master drops its own euid inside creator_file when it is the creating object
+            "drop+s:Backbone", "drop+s:Backbone", "drop+s:Root", "drop+s:u1", "drop+err", "drop+i:0"]
 VS_SPECS = [("i:1", 6), ("i:0", 6), ("i:-3", 1), ("s:yes", 1), ("s:", 1), ("arr", 1), ("err", 1), ("none", 2)]
 
 
@@ -281,6 +283,19 @@ class C20(Prop):
                                  "do u1a via,m,load,/c20/bb/a"])
         mk("funptr-in-create", ["script /c20/u2/a via,u1a,load,/c20/u2/b;via,u2a,load,/c20/u2/c;load,/c20/u2/c",
                                 "do m load,/c20/u1/a", "do u1a seteuid,s:u1", "do u1a load,/c20/u2/a"])
+        # ---- round 5: re-entrancy - creator_file makes the creating object (the master) seteuid(0) before it answers; the
+        # backbone rule then sees NO creator euid (a cached value would hand the old euid to the new object)
+        mk("cf-drop-master", ["pol cf bb drop+s:Backbone", "do m load,/c20/bb/a", "pol vs m * i:1", "do m seteuid,s:Root",
+                              "do m clone,c1,/c20/bb/b", "do m seteuid,s:zed", "pol cf root drop+s:Root", "do m load,/c20/root/a",
+                              "do m seteuid,s:Root", "pol cf u1 drop+err", "do m load,/c20/u1/a", "do m load,/c20/u1/a",
+                              "do m seteuid,s:Root", "pol cf u1 drop+s:u1", "do m clone,c2,/c20/u1/b"])
+        mk("cf-drop-other-creators", ["pol cf bb drop+s:Backbone", "do m load,/c20/u1/a", "do u1a seteuid,s:u1", "do u1a load,/c20/bb/a",
+                                      "do u1a via,m,load,/c20/bb/b", "pol co u2 t:/c20/bb/c", "do u1a load,/c20/u2/v1",
+                                      "script /c20/bb/c# load,/c20/bb/c", "do m seteuid,s:Root", "do u1a clone,c1,/c20/u2/v2",
+                                      "do m dest,m", "do m load,/c20/bb/c"])
+        mk("cf-drop-noroot-simul", ["cfg noroot simul", "pol cf bb drop+s:Backbone", "pol vs m * i:1", "do m seteuid,s:Backbone",
+                                    "do m load,/c20/bb/a", "do se seteuid,s:zed", "do se load,/c20/bb/b", "do m seteuid,s:x9",
+                                    "do se via,m,clone,c1,/c20/bb/b"])
         # ---- round 5: other configurations of the mudlib (first line `cfg ...`) ---------------------------------------
         # master without get_bb_uid(): set_master sets no backbone uid, a "Backbone" answer is an ordinary name
         mk("cfg-nobb", ["cfg nobb", "do m load,/c20/bb/a", "do bba seteuid,s:u1", "do bba clone,c1,/c20/bb/b", "pol cf u1 s:Backbone",
@@ -487,7 +502,7 @@ class C20(Prop):
              "seteuid_zero": 0, "export_ok": 0, "export_refused": 0, "export_error": 0, "noeuid_load_error": 0,
              "noeuid_clone_error": 0, "compile_object_calls": 0, "virtual_handed_out": 0, "funptr_ops": 0, "funptr_noeuid_refused": 0,
              "master_reloads": 0, "master_reload_refused": 0, "export_onto_self": 0, "nested_ops": 0, "nested_creations": 0, "nested_noeuid_refused": 0, "max_nesting": 0, "backbone_grants": 0, "policy_errors": 0, "nobj": 0, "reloads": 0,
-             "crash": 0, "cfg_nobb": 0, "cfg_noroot": 0, "cfg_simul": 0, "simul_actor_ops": 0, "simul_dest_error": 0}
+             "crash": 0, "cfg_nobb": 0, "cfg_noroot": 0, "cfg_simul": 0, "simul_actor_ops": 0, "simul_dest_error": 0, "cf_callback_drops": 0}
         for c in cases:
             for f in self.cfg_key(c):
                 h["cfg_" + f] += 1
@@ -502,6 +517,8 @@ class C20(Prop):
                     h["steps"] += 1
                     if t[1] == "se":
                         h["simul_actor_ops"] += 1
+                    if len(stack) >= 1 and t[1] == "m" and len(t) > 2 and t[2] == "seteuid,i:0" and cur and cur.split(",")[0] in ("load", "clone"):
+                        h["cf_callback_drops"] += 1
                     if len(t) > 2 and t[2] == "export," + t[1]:
                         h["export_onto_self"] += 1
                     stack.append(cur)
